@@ -18,17 +18,25 @@ int main()
     ChainstateManager& cm = *S.m_node.chainman;
     const CScript spk = GetScriptForRawPubKey(S.coinbaseKey.GetPubKey());
     H.advance(10);
+    // a confirmed fan-out transaction provides the coins of the transactions of the cases; when it runs low (checked between
+    // cases, when the mempool is empty) the next mature coinbase is fanned out the same way
     const int FAN = 1500;
     CTransactionRef fan;
-    {
+    int fan_height = 0;
+    int next_out = 0;
+    size_t next_coinbase = 0;
+    auto refill = [&]() {
+        const size_t k = next_coinbase++;
         std::vector<CTxOut> outs(FAN, CTxOut(CAmount(3000000), spk));
-        CMutableTransaction m = S.CreateValidMempoolTransaction({S.m_coinbase_txns.at(0)}, {COutPoint(S.m_coinbase_txns.at(0)->GetHash(), 0)}, 1, {S.coinbaseKey}, outs, /*submit=*/false);
+        CMutableTransaction m = S.CreateValidMempoolTransaction({S.m_coinbase_txns.at(k)}, {COutPoint(S.m_coinbase_txns.at(k)->GetHash(), 0)}, (int)k + 1, {S.coinbaseKey}, outs, /*submit=*/false);
         fan = MakeTransactionRef(m);
+        H.advance(1);
         S.CreateAndProcessBlock({m}, spk);
         H.sync();
-    }
-    const int fan_height = WITH_LOCK(cs_main, return cm.ActiveChain().Height());
-    int next_out = 0;
+        fan_height = WITH_LOCK(cs_main, return S.m_node.chainman->ActiveChain().Height());
+        next_out = 0;
+    };
+    refill();
     uint32_t extranonce = 1;
     uint32_t addr_counter = 0;
 
@@ -66,6 +74,7 @@ int main()
             S.CreateAndProcessBlock(in_block, spk);
             H.sync();
         }
+        if (next_out > FAN - 100) refill();
         size_t p = 0;
         int conn = vd::ll(w.at(p++)); bool noban = vd::ll(w.at(p++)) != 0; bool local = vd::ll(w.at(p++)) != 0;
         const std::string action = w.at(p++);
